@@ -80,7 +80,7 @@ def random_case(rng, task, n_vocab=None, n_clips=None):
     clips = []
     for ci in range(nc):
         only = rng.choice(["both"] * 8 + ["ann", "pred"])
-        clip = {"only": only, "t0": float(rng.choice([0.0, 1.0, 10.0])), "events": [], "ann_tags": [], "pred_tags": []}
+        clip = {"only": only, "t0": float(rng.choice([0.0, 1.0, 10.0])), "events": [], "ann_tags": [], "pred_tags": [], "rec": rng.choice([0, 0, 0, 1, 2])}
         if task in ("clip_classification", "clip_multilabel_classification"):
             ml = task == "clip_multilabel_classification"
             clip["ann_tags"] = _true_tags(rng, vocab, pool, multilabel=ml)
@@ -177,12 +177,15 @@ def build(spec, order=None):
     def tag(t):
         return data.Tag(term=term_of(t[0]), value=t[1])
 
-    rec = data.Recording(uuid=_u("rec"), path="/a/r.wav", duration=10000.0, channels=1, samplerate=44100)
+    rec0 = data.Recording(uuid=_u("rec"), path="/a/r.wav", duration=10000.0, channels=1, samplerate=44100)
+    recs = {0: rec0, 1: data.Recording(uuid=_u("rec", 1), path="/a/other site/r1.wav", duration=10000.0, channels=2, samplerate=22050),
+            2: data.Recording(uuid=_u("rec", 2), path="r2.flac", duration=20000.0, channels=1, samplerate=96000, time_expansion=10.0)}
     cps, cas = [], []
     idx = {"ann": {}, "pred": {}}
     order = order if order is not None else list(range(len(spec["clips"])))
     for ci in order:
         c = spec["clips"][ci]
+        rec = recs[c.get("rec", 0)]      # evaluated clips need not come from one recording
         clip = data.Clip(uuid=_u("clip", ci), recording=rec, start_time=c["t0"], end_time=c["t0"] + 1000.0)
         pclip = clip
         if c.get("pred_clip_copy"):
